@@ -235,7 +235,7 @@ PROPERTIES = {
     },
     "C12": {
         "level": "proof",
-        "verus_units": ["transc", "log2inner", "fracops", "nofrac", "trig"],
+        "verus_units": ["transc", "log2inner", "fracops", "nofrac", "trig", "arith_widen", "arith128", "widediv"],
         "kani": ["transc::const_values", "transc::exp_i9f23", "transc::sin_i9f23", "transc::cos_i9f23", "transc::cos_i32f32"],
         "kani_thorough": ["transc::sqrt_i9f23", "transc::log2_i9f23", "transc::ln_i9f23", "transc::sqrt_u9f23", "transc::tan_i9f23",
                           "transc::sin_i32f32", "transc::sin_i64f64", "transc::exp_i32f32", "transc::tan_i32f32"],
@@ -325,7 +325,7 @@ PROPERTIES = {
     },
     "C18": {
         "level": "proof",
-        "verus_units": ["wrapping", "traitfwd@*", "bitops@*"],
+        "verus_units": ["wrapping", "traitfwd@*", "bitops@*", "fracops", "nofrac", "arith_widen", "arith128", "widediv"],
         "verus_units_thorough": ["nofrac", "fracops", "round@*"],
         "kani": _mods("wrap8", ["i4f4", "i0f8", "u4f4", "u0f8"], ["arith_ops", "bit_and_shift_ops", "rounding_and_conversion"])
                 + ["wrap8::i4f4::ref_and_assign_forms", "wrap8::u4f4::ref_and_assign_forms"]
